@@ -167,7 +167,7 @@ def run(case, scn, workdir, crash_at=None, resume=None, collect=False, probes=Tr
                 return_history=True, **extra, **sk)
             jax.effects_barrier()
             probe_previous_kernel()
-            out.update(samples=samples, history=hist, flow=A.flow)
+            out.update(samples=samples, history=hist, flow=A.flow, n_like_reported=A.sampler.n_likelihood_evaluations)
         except SimModelError as e:
             out.update(status="crashed", error=f"{type(e).__name__}: {e}")
         except (ValueError, FloatingPointError) as e:
@@ -348,7 +348,7 @@ def _digest_run(r):
 
 
 def judge(case, workdir, scn, want):
-    """want: subset of {"c08", "c10", "c18", "c20"}."""
+    """want: subset of {"c08", "c10", "c17", "c18", "c20"}."""
     import copy
 
     r = run(case, scn, workdir)
@@ -369,6 +369,16 @@ def judge(case, workdir, scn, want):
     if "c10" in want:
         V += O.check_coherence(res, scn, include_payloads=False)[0]
         probes["populations_checked"] = len(pops) + 1
+    if "c17" in want:
+        m = r["model"]
+        for f in m.c17_failures[:3]:
+            V.append(O.violation("c17.prior_attached", f"BlackJAXSMC likelihood call ({'inside the compiled kernel' if f.get('traced') else 'eager'}): {f['why']}"
+                                 + (f" (x={f.get('x')}, attached={f.get('attached')}, prior={f.get('prior')})" if "x" in f else ""),
+                                 {**where, "sampler": "blackjax_smc", "traced": bool(f.get("traced"))}))
+        # the eager call sites evaluate whole populations: the initial one and one per kernel (incl. the final enlargement)
+        probes["c17.eager_likelihood_calls"] = m.c17_checked["concrete_calls"]
+        probes["c17.traced_likelihood_calls"] = m.c17_checked["traced_calls"]
+        probes["c17.traced_points_checked"] = m.c17_checked["traced_points"]
     if "c20" in want:
         d1 = _digest_run(r)
         r2 = run(case, scn, workdir)
